@@ -52,6 +52,23 @@ var knownClasses = map[string]bool{
 	"C12/reencode/noncanonical-compact-bigint-accepted": true,
 	// decodeBytes makes the declared length (up to 4 GiB) before reading (defect D3)
 	"C12/alloc/alloc-declared-bytes-length-preallocated": true,
+
+	// C33: the same decodeBytes preallocation reached through the network decoders (D3)
+	"C33/alloc/alloc-exceeds-linear-bound:block-announce":  true, // digest item data
+	"C33/alloc/alloc-exceeds-linear-bound:block-response":  true, // header digests, body extrinsics (NewBodyFromEncodedBytes)
+	"C33/alloc/alloc-exceeds-linear-bound:light-request":   true,
+	"C33/alloc/alloc-exceeds-linear-bound:light-response":  true,
+	"C33/alloc/alloc-exceeds-linear-bound:warp-sync-proof": true,
+	// warp sync proof: GrandpaJustification.VoteAncestries is a slice of an interface
+	// type, pkg/scale dereferences reflect.TypeOf(nil) (D4)
+	"C33/panic/panic@pkg/scale/decode.go:158": true,
+
+	// C07
+	"C07/panic/panic@pkg/trie/node/decode.go:126":              true, // inlined child that is the empty node: nil dereference (D5)
+	"C07/panic/panic@pkg/trie/node/decode.go:59":               true, // header byte 0x01 ("compact encoding" variant): panic("not implemented") (D6)
+	"C07/panic/panic@pkg/trie/triedb/codec/decode.go:63":       true, // the same in the triedb codec (D6)
+	"C07/alloc/alloc-exceeds-linear-bound:node.Decode":         true, // storage value / child hash through decodeBytes (D3)
+	"C07/alloc/alloc-exceeds-linear-bound:triedb/codec.Decode": true,
 }
 
 func known(prop, oracle, class string) bool {
@@ -101,7 +118,15 @@ func (c *ctx) report(oracle, class, format string, a ...any) {
 		c.k.Probe("known-class-hit:" + class)
 		if !c.seen[class] {
 			c.seen[class] = true
-			c.k.Event("known", "%s/%s first hit in this run: %s", oracle, class, fmt.Sprintf(format, a...))
+			detail := fmt.Sprintf(format, a...)
+			if oracle == "alloc" {
+				// measured byte counts vary by a few bytes between processes; the
+				// event log must be a pure function of the tape
+				if i := strings.Index(detail, ": decoding allocated"); i > 0 {
+					detail = detail[:i]
+				}
+			}
+			c.k.Event("known", "%s/%s first hit in this run: %s", oracle, class, detail)
 		}
 		return
 	}
